@@ -159,7 +159,7 @@ Definition tick_target (sh : shape) (t : Z) (p : list Z) (g : target) : target :
   let d := tick_delta sh (tval g) new p in
   mkT true new t (tval g) (fst d) (snd d).
 
-Fixpoint tick_all (sh : shape) (t : Z) (ps : list (option (list Z))) (ts : list target) : list target :=
+Fixpoint tick_all (sh : shape) (t : Z) (ps : list (option (list Z))) (ts : list target) {struct ts} : list target :=
   match ts with
   | [] => []
   | g :: r =>
